@@ -199,6 +199,31 @@ CHECKS = {
         note="SQLAlchemy's compiler is trusted (BindParameter -> placeholder), re-checked concretely on adversarial values; "
              "in-list values on Django are pool picks (its In lookup hashes them); known findings: conditional ESCAPE '/' "
              "clause and inline boolean constants on SQLAlchemy (both pinned by the repo's tests)."),
+    "C10": dict(
+        level="model_checking", engine="rexcirc+chx", design="DESIGN.md section 4 C10",
+        technique="three composed layers: z3 over the lexer circuit (every step is a rule match with progress, a literal or "
+                  "an error that raises TokenizingException; no rule matches the empty string; token actions total), CrossHair "
+                  "inductive step over every grammar action from arbitrary invariant-satisfying stack values (with witness "
+                  "synthesis through the real parser), CrossHair over the real LR driver on symbolic token sequences",
+        text="Assume/guarantee composition: any text either fails in the lexer with TokenizingException or yields tokens "
+             "whose values are AST nodes; every reduction maps invariant-satisfying values to invariant-satisfying values or "
+             "raises a library exception; the driver on every token sequence up to the bound returns a node or raises "
+             "ParsingException / a function-call exception, deterministically.",
+        note="Bounds: lexer N=16..44 and alphabet as C06; grammar-action value shapes nested <= 3 with symbolic picks; driver "
+             "token sequences of length <= 3 (quick) / <= 4 (thorough) over one atom per LR-indistinguishable terminal class. "
+             "The long-input regime (thousands of segments, 64 KB) is replayed concretely only - no solver claim; a time-out "
+             "there is reported as inconclusive."),
+    "C20": dict(
+        level="model_checking", engine="chx", design="DESIGN.md section 4 C20",
+        technique="CrossHair (z3) inductive step: every instance attribute of a used lexer / parser overwritten by a symbolic "
+                  "value of its type (callables / iterators by poison objects), then a probe string parsed and compared with "
+                  "a fresh pair; plus labelled concrete sweeps (call histories, PYTHONHASHSEED / import order in subprocesses)",
+        text="One step from an arbitrary stale instance state covers call histories of any length: for each probe (valid, "
+             "syntax error, tokenising error, unknown function, argument count) the outcome equals a fresh pair's for every "
+             "stale value; AliasRewriter built with poisoned caller-supplied instances equals the one built with fresh ones.",
+        note="Stale values: ints, bools, short strings, int lists (symbolic), poison objects for callables; the history sweep "
+             "(258 histories x 9 probes) and the hash-seed / import-order sweep (8 / 32 subprocesses) are finite "
+             "configuration sweeps, not solver verdicts, and are labelled so."),
 }
 
 NOT_YET = {}
@@ -294,6 +319,8 @@ SOURCE_COMMITS = [
     "b2f2aa1 fix: SQLAlchemy ORM only accepts mapped attributes as fields",
     "568eac8 fix: Django 'ne' lookup no longer fails when one side yields a tuple of parameters",
     "02e08bb fix: Django backend accepts a bare boolean field as a filter",
+    "770b0fe fix: long property paths no longer exhaust the recursion limit while parsing",
+    "6bb2574 fix: an empty argument list may contain whitespace",
 ]
 
 if __name__ == "__main__":
